@@ -457,6 +457,11 @@ impl Scenario for Flow {
                                         stop!();
                                     }
                                 }
+                                if obs.exts != f.exts && ex.target == "C07" {
+                                    if ex.report(Violation::new("C07", "C07.metadata", format!("{}:extensions", site_k), format!("stream {} fid {}: delivered {} extensions, sent {}", f.stream_no, f.fid, obs.exts.len(), f.exts.len()))) {
+                                        stop!();
+                                    }
+                                }
                                 if obs.exts != f.exts {
                                     if ex.report(Violation::new("C13", "C13.extensions_differ", site_k.clone(), format!("delivered {} extensions {:?}, sent {:?}", obs.exts.len(), obs.exts.iter().map(|e| e.0).collect::<Vec<_>>(), f.exts.iter().map(|e| e.0).collect::<Vec<_>>()))) {
                                         stop!();
